@@ -82,7 +82,10 @@ public:
         for (Index k = 0; k < this->m_correction_size; k++)
         {
             Vector tmp = eigvals(k) - m_diagonal.array();
-            correction.col(k) = residues.col(k).array() / tmp.array();
+            // A Ritz value can coincide exactly with a diagonal entry (a decoupled coordinate,
+            // or a unit vector in the search space); the residual is zero there as well, and
+            // 0/0 would poison the whole search space with NaN. No correction in that coordinate
+            correction.col(k) = (tmp.array() == Scalar(0)).select(Scalar(0), residues.col(k).array() / tmp.array());
         }
         return correction;
     }
